@@ -96,6 +96,8 @@ def check(src, rep):
 
     und = None
     cells = 0
+    from sa.decoders import ResultLog
+    rlog = ResultLog()
     # ---- positional layouts: every documented length x position, frame and bare body; undocumented lengths are refused
     for n in sorted(LAYOUTS, reverse=True) + [0, 2, 5, 10, 12, 15, 17, 19]:
         names = LAYOUTS.get(n)
@@ -132,6 +134,7 @@ def check(src, rep):
             if not isinstance(got, dict):
                 und = f"{desc}: no dictionary returned"
                 break
+            rlog.add(desc, got)
             want = {MAN: "Kaifa"}
             if which == "frame":
                 want["meter_datetime"] = ADT
@@ -201,6 +204,7 @@ def check(src, rep):
                     Vio("R5", "normaliser-raises", f"the normaliser raises {res[1]} for a well-formed {desc}", desc)
                 continue
             got = res[1]
+            rlog.add(desc, got)
             for c, v in codes:
                 n_obis += 1
                 cdr = ".".join(c.split(".")[2:5])
@@ -222,6 +226,9 @@ def check(src, rep):
                     Vio("R2" if v.pytype == "int" else "R5", f"scaling:{nm}" if v.pytype == "int" else "text-not-verbatim", f"field {nm!r} of the OBIS-tagged list is not stored as parsed", f"{desc}: stored {g!r}")
             if got.get(MAN) != "Kaifa":
                 Vio("R5", "manufacturer", "the manufacturer field is not the constant 'Kaifa'", repr(got.get(MAN)))
+    rf = rlog.finding()
+    if rf:
+        Vio("R1", "result-aliased", rf[0], rf[1], "normalize_parsed_notification")
     # ---- an unknown body type is refused
     if not und:
         res = AE.apply(bo_fn, [AObj("Container", {"type": Sym("other_type", "int"), "list_items": []})])
